@@ -98,6 +98,95 @@ type unorderedSource struct {
 	val  ssa.Value // the unordered sequence as seen at a use site
 }
 
+// onlyLoggedText: fn is an unexported function or method that returns one string and nothing else, stores nothing
+// outside its own variables (and those of its literals), and each of its calls is an argument of a log call.
+func onlyLoggedText(c *core.Ctx, fn *ssa.Function) bool {
+	if fn == nil || fn.Object() == nil || fn.Object().Exported() || fn.Signature.Results().Len() != 1 || len(c.FuncValueUses(fn)) != 0 {
+		return false
+	}
+	if b, ok := fn.Signature.Results().At(0).Type().Underlying().(*types.Basic); !ok || b.Info()&types.IsString == 0 {
+		return false
+	}
+	for _, g := range core.WithAnon(fn) {
+		for _, b := range g.Blocks {
+			for _, in := range b.Instrs {
+				switch x := in.(type) {
+				case *ssa.Store:
+					addr := x.Addr
+					if ia, ok := addr.(*ssa.IndexAddr); ok {
+						addr = ia.X
+					}
+					switch addr.(type) {
+					case *ssa.Alloc, *ssa.FreeVar:
+					default:
+						return false
+					}
+				case *ssa.MapUpdate, *ssa.Send, *ssa.Go:
+					return false
+				}
+			}
+		}
+	}
+	sites := c.CallSites(func(com *ssa.CallCommon) bool { return core.IsCallTo(com, fn) })
+	if len(sites) == 0 {
+		return false
+	}
+	for _, cs := range sites {
+		v := cs.Value()
+		if v == nil {
+			return false
+		}
+		if !flowsOnlyIntoLog(v, 0) {
+			return false
+		}
+	}
+	return true
+}
+
+// flowsOnlyIntoLog: every use of v is boxing, a store into a variadic argument array, or an argument of a log call.
+func flowsOnlyIntoLog(v ssa.Value, depth int) bool {
+	if depth > 4 || v.Referrers() == nil {
+		return false
+	}
+	n := 0
+	for _, rf := range *v.Referrers() {
+		switch x := rf.(type) {
+		case *ssa.DebugRef:
+		case *ssa.MakeInterface:
+			n++
+			if !flowsOnlyIntoLog(x, depth+1) {
+				return false
+			}
+		case *ssa.Store:
+			// into the array of a variadic call: the array's slice must go to a log call
+			ia, ok := x.Addr.(*ssa.IndexAddr)
+			if !ok || x.Val != v {
+				return false
+			}
+			al, ok := ia.X.(*ssa.Alloc)
+			if !ok {
+				return false
+			}
+			n++
+			for _, r2 := range *al.Referrers() {
+				if sl, isSl := r2.(*ssa.Slice); isSl {
+					if !flowsOnlyIntoLog(sl, depth+1) {
+						return false
+					}
+				}
+			}
+		case ssa.CallInstruction:
+			if !core.IsLogCall(x.Common()) {
+				return false
+			}
+			n++
+		default:
+			return false
+		}
+	}
+	return n > 0
+}
+
 // deadFunction: an unexported function or method that nothing in scope calls (also not through an interface of its
 // package) and whose value nothing takes.
 func deadFunction(c *core.Ctx, fn *ssa.Function) bool {
@@ -804,6 +893,8 @@ func c10(c *core.Ctx, r *core.Report) {
 			// SORTED: keys are collected, sorted, then visited (in place, or by the caller of a key-collecting helper)
 			okSorted, why := sortedCollector(c, s)
 			r.Check(okSorted, "C10.R1", cons, pos, "SORTED: the map range only collects keys, which are sorted with a strict `<` before they are visited or handed back "+why)
+		case onlyLoggedText(c, core.TopLevel(s.fn)):
+			r.Hold("C10.R1", cons, pos, "DIAGNOSTIC: the enclosing function renders a text, and every call of it is an argument of a log call: the order can only show in a log line")
 		case s.kind == "use" && !reach[s.fn] && !reach[core.TopLevel(s.fn)] && deadFunction(c, core.TopLevel(s.fn)):
 			r.Hold("C10.R1", cons, pos, "UNUSED: the use sits in an unexported function that nothing in scope calls or takes the value of")
 		case s.kind != "use" && !reach[s.fn] && !reach[core.TopLevel(s.fn)]:
@@ -836,7 +927,16 @@ func c10(c *core.Ctx, r *core.Report) {
 				switch x := rf.(type) {
 				case *ssa.Call:
 					// (its length is the same in every order)
-					if bi, isB := x.Common().Value.(*ssa.Builtin); !isB || (bi.Name() != "append" && bi.Name() != "len") {
+					if bi, isB := x.Common().Value.(*ssa.Builtin); (!isB || (bi.Name() != "append" && bi.Name() != "len")) && !core.IsLogCall(x.Common()) {
+						okApp = false
+					}
+				case *ssa.ChangeType:
+					// shown in a log line under a type that renders it (the order can only show there)
+					if !flowsOnlyIntoLog(x, 0) {
+						okApp = false
+					}
+				case *ssa.MakeInterface:
+					if !flowsOnlyIntoLog(x, 0) {
 						okApp = false
 					}
 				case *ssa.DebugRef:
@@ -1144,7 +1244,26 @@ func rolesOf(p *procInfo) []string {
 func sortedFieldLater(c *core.Ctx, fr core.FieldRef, sorter *ssa.Function) bool {
 	stores, _ := c.FieldAccesses(fr.Owner, fr.Name)
 	for _, st := range stores {
-		if call, ok := core.Norm(st.Store.Val).(*ssa.Call); ok && core.IsCallTo(call.Common(), sorter) {
+		call, ok := core.Norm(st.Store.Val).(*ssa.Call)
+		if !ok {
+			continue
+		}
+		if core.IsCallTo(call.Common(), sorter) {
+			return true
+		}
+		// ... through a collaborator behind an internal interface, every implementation of which hands its argument to
+		// the sorter and returns what that returns
+		impls := core.SeamAll(call.Common())
+		if cal := call.Common().StaticCallee(); cal != nil {
+			impls = []*ssa.Function{cal}
+		}
+		all := len(impls) > 0
+		for _, impl := range impls {
+			if pureForwarder(impl) != sorter && !(pureForwarder(impl) != nil && pureForwarder(impl).Origin() == sorter) {
+				all = false
+			}
+		}
+		if all {
 			return true
 		}
 	}
